@@ -61,7 +61,9 @@ fn judge_mtu(scn: &Scenario, p: &Plan, l: &RunLog) -> Vec<oracles::Finding> {
         if f.property == "C01" {
             let mut g = f.clone();
             g.property = "C14";
-            g.signature = format!("mtu/{}", g.signature);
+            if !g.signature.starts_with("probe/") {
+                g.signature = format!("mtu/{}", g.signature);
+            }
             extra.push(g);
         }
     }
@@ -101,16 +103,26 @@ pub fn mtu_family(ctx: &Ctx) -> Outcome {
             g
         }
     };
+    let mut scns: Vec<(Scenario, Vec<crate::duo::sim::Fate>)> = vec![];
     for (lm, bh, em, v6) in grid {
-        let scn = lib::mtu_transfer(lm, bh, em, 60_000, v6);
+        scns.push((lib::mtu_transfer(lm, bh, em, 60_000, v6), vec![crate::duo::sim::Fate::Drop]));
+    }
+    // probes that are delivered but acknowledged late (delay past the RTO) with and without probe retransmissions
+    for retx in [0usize, 1] {
+        let mut s = lib::mtu_transfer(700, None, None, 12_000, false);
+        s.a.probe_retx = retx;
+        s.name = format!("{}-proberetx{}", s.name, retx);
+        scns.push((s, vec![crate::duo::sim::Fate::Drop, crate::duo::sim::Fate::Delay(300_000), crate::duo::sim::Fate::Delay(700_000)]));
+    }
+    for (scn, fates) in scns {
         let always = |_: &RunLog, _: &WireEventLite| true;
-        let cfg = ExploreCfg { max_dev: ctx.tier.pick(1, 1), min_k: 1, fates: vec![crate::duo::sim::Fate::Drop], eligible: &always, judge: &judge_mtu, max_runs: ctx.tier.pick(3_000, 200_000) };
+        let cfg = ExploreCfg { max_dev: ctx.tier.pick(1, 2), min_k: 1, fates, eligible: &always, judge: &judge_mtu, max_runs: ctx.tier.pick(3_000, 200_000) };
         let r = explore(ctx, &scn, &cfg);
         let mut p = Part::fe(&format!("duo:{}", scn.name));
         p.evaluations = r.runs;
         p.distinct_nontrivial = r.distinct_traces;
         p.distinct_outcomes = r.outcome_classes.len() as u64;
-        p.bound = format!("60 kB transfer, all plans of <= {} dropped datagram(s) on top of the path's size blackhole / EMSGSIZE; per level {:?}", r.completed_bound, r.per_level);
+        p.bound = format!("bulk transfer with MTU probing, all plans of <= {} deviation(s) on top of the path's size blackhole / EMSGSIZE; per level {:?}", r.completed_bound, r.per_level);
         if let Some(c) = &r.capped {
             p.caps_hit.push(c.clone());
             p.exhaustive = false;
